@@ -582,4 +582,58 @@ example : orderValue ⟨false, 100⟩ (-100) (-1) 0 0 0 (fun _ => 0) = some (tru
 
 example : futOrderRequests (-7) false 5 2 0 0 = [⟨false, .close, 2⟩, ⟨false, .closeToday, 3⟩, ⟨false, .open_, 2⟩] := by decide
 
+
+/-! ### `auto_switch_order_value` -/
+
+/-- a SELL, or a request that creates no order, is not touched by the auto switch -/
+theorem auto_switch_leaves_sells (ins : SzIns) (amount : R) (posQty closable : Int) (price cash : R) (cost : Int → R)
+    (h : ∀ q, orderShares ins amount posQty ≠ some (true, q)) :
+    orderSharesAuto ins amount posQty closable price cash cost = orderShares ins amount posQty := by
+  unfold orderSharesAuto
+  cases hr : orderShares ins amount posQty with
+  | none => rfl
+  | some r =>
+    obtain ⟨b, q⟩ := r
+    cases b with
+    | false => rfl
+    | true => exact absurd hr (h q)
+
+/-- an affordable BUY (reserved price × quantity + estimated fee within the available cash) is submitted as requested -/
+theorem auto_switch_affordable_unchanged (ins : SzIns) (amount : R) (posQty closable q : Int) (price cash : R) (cost : Int → R)
+    (hr : orderShares ins amount posQty = some (true, q)) (ha : price * R.ofInt q + cost q ≤ cash) :
+    orderSharesAuto ins amount posQty closable price cash cost = some (true, q) := by
+  unfold orderSharesAuto
+  rw [hr]
+  simp only [ha, if_true]
+
+/-- an unaffordable BUY is replaced by `_order_value` of the available cash, counted as 0 when it is negative: the replacement amount
+is never negative (a negative amount would be a request to SELL — the defect that was repaired) -/
+theorem auto_switch_replacement (ins : SzIns) (amount : R) (posQty closable q : Int) (price cash : R) (cost : Int → R)
+    (hr : orderShares ins amount posQty = some (true, q)) (ha : ¬ (price * R.ofInt q + cost q ≤ cash)) :
+    orderSharesAuto ins amount posQty closable price cash cost = orderValue ins (R.pymax cash 0) price cash closable posQty cost ∧
+    0 ≤ R.pymax cash 0 := by
+  refine ⟨?_, ?_⟩
+  · unfold orderSharesAuto
+    rw [hr]
+    simp only [ha, if_false]
+  · unfold R.pymax
+    split_ifs with h
+    · exact le_refl _
+    · exact not_lt.1 h
+
+/-- with no available cash the replaced request creates what a zero-share request creates (no order) -/
+theorem auto_switch_without_cash (ins : SzIns) (amount : R) (posQty closable q : Int) (price cash : R) (cost : Int → R)
+    (hr : orderShares ins amount posQty = some (true, q)) (ha : ¬ (price * R.ofInt q + cost q ≤ cash)) (hc : cash ≤ 0)
+    (hq : R.decQuot10 0 price = 0) :
+    orderSharesAuto ins amount posQty closable price cash cost = orderShares ins (R.ofInt 0) posQty := by
+  rw [(auto_switch_replacement ins amount posQty closable q price cash cost hr ha).1]
+  have hmax : R.pymax cash 0 = 0 := by
+    unfold R.pymax
+    rcases lt_or_eq_of_le hc with h | h
+    · rw [if_pos h]
+    · rw [if_neg (by rw [h]; exact lt_irrefl _), h]
+  rw [hmax]
+  unfold orderValue
+  simp only [gt_iff_lt, lt_irrefl, if_false, hq]
+
 end RQ.Props.C15
